@@ -68,8 +68,9 @@ def run_counting(cfg, devs, t_end, stim):
     return res
 
 
-def tcp_counts(n):
-    """n chunks on one connection; how many reply tasks does the handler still hold?"""
+def tcp_counts(n, streaming=False):
+    """n chunks on one connection; how many reply tasks does the handler still hold?
+    streaming: the connection starts with a never-ending on_connect readback (a long-lived reply task)"""
     from tickit.adapters.io.tcp_io import TcpIo
     from tickit.adapters.tcp import CommandAdapter
     from tickit.adapters.specifications import RegexCommand
@@ -78,6 +79,12 @@ def tcp_counts(n):
         @RegexCommand(rb"P", False)
         async def p(self):
             return b"ok"
+
+        async def on_connect(self):
+            if streaming:
+                yield b"hello"
+                await asyncio.Event().wait()     # continuous readback: never finishes
+            return
 
     out = {}
 
@@ -120,7 +127,9 @@ def tcp_counts(n):
         async def ri():
             pass
         handle = TcpIo("h", 1)._generate_handle_function(a.on_connect, a.handle_message, ri, a.byte_format)
-        await handle(Reader(), Writer())
+        t = asyncio.create_task(handle(Reader(), Writer()))
+        await asyncio.wait([t], timeout=(0.3 if streaming else 30))
+        t.cancel()
     handle = None
     asyncio.run(main())
     return out
@@ -144,6 +153,8 @@ def main(tier, seed):
           3: dict(order=[(6, "dev"), (7, "dev")], conns=[(EXT, 1, 6, 1), (7, 1, EXP, 1)])},
          {4: (9, 20_000_000, 1), 6: (9, 30_000_000, 0), 7: (9, 40_000_000, 1), 8: (9, 30_000_000, 0)}),
     ]
+    # purely interrupt-driven: no component ever asks for a callback, the master idles between interrupts
+    configs.append(({1: dict(order=[(3, "dev"), (4, "dev")], conns=[(3, 1, 4, 1)])}, {3: (3, 20_000_000, 0), 4: (3, 30_000_000, 0)}))
     for _ in range({"quick": 2, "thorough": 20}[tier]):
         cfg = slevel.gen_config(rng, depth=rng.choice([0, 1, 2]))
         devs = {c: (7, rng.choice([20_000_000, 30_000_000, 50_000_000]), rng.choice([1, 1, 4])) for c in slevel.devices_of(cfg)}
@@ -155,7 +166,9 @@ def main(tier, seed):
         for mult in (1, 2, 4):
             t_end = N * mult * 10_000_000 + 3_000_003
             dl = slevel.devices_of(cfg)
-            stim = sorted((rng.randrange(1, N * mult) * 10_000_000 + 137 * (k + 1), rng.choice(dl)) for k in range(N * mult // 6))
+            idle_only = all(p[2] == 0 for p in devs.values())
+            stim = sorted((rng.randrange(1, N * mult) * 10_000_000 + 137 * (k + 1), rng.choice(dl))
+                          for k in range(N * mult // (1 if idle_only else 6)))
             counts.append(run_counting(cfg, devs, t_end, stim))
         cases.append(dict(cfg=cfg, devs=devs, counts=counts))
         terms.append(render(cfg, counts))
@@ -165,6 +178,7 @@ def main(tier, seed):
         if any(x["error"] for x in c["counts"]):
             bad.setdefault(i, []).append(151)
     tcp = [tcp_counts(n) for n in (N, 2 * N, 4 * N)]
+    tcp_s = [tcp_counts(n, streaming=True) for n in (N, 2 * N, 4 * N)]
     ck.count("tcp", True)
     ck.evaluations += 3 * len(cases) + 2
     ck.rule = (f"flat, nested and doubly nested configurations plus random ones, every device with a blocking adapter task and periodic "
@@ -183,9 +197,11 @@ def main(tier, seed):
             d = sprops.describe(dict(c, speed=(1, 1), initial=0, stim=[]))
             d.update(kind="counts", counts=c["counts"], codes=bad[i])
             ck.report(REASONS[code], f"resource counts over runs of N, 2N, 4N ticks: {[(x['ticks'], x['tasks'], x['timers']) for x in c['counts']]}: {REASONS[code]}", d)
-    if not (tcp[0]["retained_closure"] <= 2 and tcp[2]["retained_closure"] <= 2 and tcp[2]["task_objects"] <= tcp[0]["task_objects"] + 2):
-        ck.report(REASONS[154], f"TCP handler after N, 2N, 4N chunks on one connection retains {[t['retained_closure'] for t in tcp]} reply tasks "
-                  f"({[t['task_objects'] for t in tcp]} Task objects alive)", dict(kind="tcp", counts=tcp))
+    for name, tc in (("", tcp), (" with a never-ending on_connect readback", tcp_s)):
+        if not (tc[2].get("task_objects", 10**9) <= tc[0].get("task_objects", 0) + 2 and tc[2].get("live_tasks", 10**9) <= tc[0].get("live_tasks", 0) + 2):
+            ck.report(REASONS[154] + ("-streaming" if name else ""),
+                      f"TCP handler after N, 2N, 4N chunks on one connection{name}: {[t.get('task_objects') for t in tc]} Task objects alive, "
+                      f"{[t.get('live_tasks') for t in tc]} unfinished", dict(kind="tcp", counts=tc))
     return ck.finish()
 
 
